@@ -243,12 +243,18 @@ impl<Id, Type> InternTable<Id, Type> {
 impl<Id: InternId> InternTable<Id, Id::Intern> {
     /// The methods from here on are internal and private.
     fn shards(&'static self) -> &'static Shards<Id> {
+        #[cfg(isographlabs_isograph_verif)]
+        crate::verif_hooks::point("intern.shards_init", &self.shards as *const _ as usize);
         self.shards.get_or_init(|| {
+            #[cfg(isographlabs_isograph_verif)]
+            crate::verif_hooks::point("intern.shards_init_enter", 0);
             let shards: Shards<Id> = ShardedSet::default();
             if !self.arena.is_empty() {
                 let iwz = AsInterned(Id::wrap(atomic_arena::Zero::zero()));
                 shards.unchecked_insert(iwz);
             }
+            #[cfg(isographlabs_isograph_verif)]
+            crate::verif_hooks::point("intern.shards_init_done", 0);
             shards
         })
     }
@@ -269,7 +275,11 @@ impl<Id: InternId> InternTable<Id, Id::Intern> {
             Err(insert_lock) => insert_lock,
         };
         let id = Id::wrap(self.arena.add(t.into()));
+        #[cfg(isographlabs_isograph_verif)]
+        crate::verif_hooks::point("intern.shard_insert", 0);
         insert_lock.insert(AsInterned(id));
+        #[cfg(isographlabs_isograph_verif)]
+        crate::verif_hooks::point("intern.unlock", 0);
         id
     }
 
